@@ -125,11 +125,19 @@ def apply_fn_sections(s, fnsec, item_lo, item_hi, log):
         if sub.kind == 'attr':
             s = s[:ls] + txt + s[ls:]
         elif sub.kind == 'spec':
-            # between signature and `{`; strip trailing whitespace before `{`
-            k = bo
-            while s[k - 1] in ' \t\n':
-                k -= 1
-            s = s[:k] + '\n' + txt + s[bo:]
+            # X10: name the return value `r`; then requires/ensures between signature and `{`
+            from rustscan import next_code_char
+            po = next_code_char(s, m, s.index('fn ' + name, ls), '(')
+            pc = match_close(s, m, po, '(', ')')
+            tail = s[pc + 1:bo]
+            rm = re.match(r'^\s*->\s*(.+?)\s*$', tail, flags=re.S)
+            if rm:
+                sig_tail = ' -> (r: %s)' % rm.group(1)
+            elif tail.strip() == '':
+                sig_tail = ''
+            else:
+                raise Lost('%s: unexpected signature tail %r' % (where, tail))
+            s = s[:pc + 1] + sig_tail + '\n' + txt + s[bo:]
         elif sub.kind == 'head':
             s = s[:bo + 1] + '\n' + txt + s[bo + 1:]
         elif sub.kind == 'loop':
